@@ -243,8 +243,38 @@ def sub_enum_rooted(acc: Acc, shard: int, nshards: int, tier: str, seed: int) ->
                         acc.known_hits[v["signature"]] += 1
                     elif len(acc.violations) < 8 and all(v["signature"] != w["signature"] for w in acc.violations):
                         acc.violations.append(v)
+    # numeric escapes of double-quoted scalars: every (position, digit) with the other digits all 0 / all F, boundary
+    # code points, truncated and non-hex forms - in key and in value position
+    n_esc = 0
+    for letter, width in (("x", 2), ("u", 4), ("U", 8)):
+        forms = set()
+        for pos in range(width):
+            for d in "0123456789abcdefABCDEF":
+                for fill in "0fF":
+                    forms.add(fill * pos + d + fill * (width - pos - 1))
+        for cp in (0, 1, 9, 0xA, 0xD, 0x7F, 0x80, 0x85, 0xA0, 0xFF, 0x100, 0x2028, 0xD7FF, 0xD800, 0xDFFF, 0xE000, 0xFEFF, 0xFFFE,
+                   0xFFFF, 0x10000, 0x10FFFF, 0x110000, 0x7FFFFFFF, 0x80000000, 0xFFFFFFFF):
+            if cp < 16 ** width:
+                forms.add(format(cp, f"0{width}x"))
+                forms.add(format(cp, f"0{width}X"))
+        for k in range(width):
+            forms.add("1" * k)            # truncated
+            forms.add("1" * k + "g")      # non-hex digit
+        for body in sorted(forms):
+            for tmpl in ('k: "\\{L}{B}"', 'k: "a\\{L}{B}b"\n', '"\\{L}{B}": v', 'k: "\\{L}{B}'):
+                i += 1
+                if i % nshards != shard:
+                    continue
+                n_esc += 1
+                text = tmpl.format(L=letter, B=body)
+                for v in check_text(acc, text):
+                    if kn.matches(v):
+                        acc.known_hits[v["signature"]] += 1
+                    elif len(acc.violations) < 8 and all(v["signature"] != w["signature"] for w in acc.violations):
+                        acc.violations.append(v)
     acc.exhaustive = True
     acc.extra["rooted_enumeration"] = {"max_suffix_length": maxlen, "roots": len(ROOTS)}
+    acc.extra["escape_forms_evaluated"] = n_esc
 
 
 # ---------------------------------------------------------------- (b) grammar
